@@ -456,7 +456,12 @@ class Observed(object):
 def send(app, stack, rq):
     headers = []
     if rq['origin'] is not None:
-        headers.append((rq.get('origin_name') or 'Origin', rq['origin']))
+        if rq.get('origin_lines'):
+            # the Origin value arrives as several field lines (the server / framework joins them with ',')
+            for i, part in enumerate(rq['origin_lines']):
+                headers.append((('Origin', 'origin', 'ORIGIN')[i % 3], part))
+        else:
+            headers.append((rq.get('origin_name') or 'Origin', rq['origin']))
     if rq.get('acrm') is not None:
         headers.append(('Access-Control-Request-Method', rq['acrm']))
     if rq.get('acrh') is not None:
@@ -823,8 +828,20 @@ class RequestHistory(_StaticDirMixin, Suite):
 
     def strategy(self, tier):
         cfgs = [c for c in table_configs('quick')]
-        rq = st.builds(lambda origin, kind: {'origin': origin, 'method': kind[0], 'acrm': kind[1], 'acrh': kind[2]},
-                       st.sampled_from(ORIGINS + [B_, A_, C_]), st.sampled_from(CORE_KINDS))
+        # an EMPTY collection of origins allows nobody (it is not the wildcard)
+        cfgs += [({'ao': [], 'ac': None, 'eh': None}, 'mw', 'alone'), ({'ao': [], 'ac': '*', 'eh': 'X-One'}, 'mw', 'alone'),
+                 ({'ao': [], 'ac': [A_], 'eh': None, 'container': 'tuple'}, 'mw', 'between'),
+                 ({'ao': [], 'ac': None, 'eh': None, 'container': 'frozenset'}, 'mw', 'alone')]
+
+        def mk(origin, kind, split):
+            rq = {'origin': origin, 'method': kind[0], 'acrm': kind[1], 'acrh': kind[2]}
+            if split is not None and origin:
+                # two Origin field lines: the request's origin is the combined value, which no policy lists
+                rq['origin_lines'] = [split, origin]
+                rq['origin'] = split + ',' + origin
+            return rq
+        rq = st.builds(mk, st.sampled_from(ORIGINS + [B_, A_, C_]), st.sampled_from(CORE_KINDS),
+                       st.sampled_from([None, None, None, None, D_, 'https://x.example']))
         return st.builds(
             lambda ci, cell, stack, rqs: {
                 'app': {'stack': stack, 'via': cfgs[ci][1], 'cfg': cfgs[ci][0], 'before': SURROUND[cfgs[ci][2]][0],
